@@ -216,7 +216,7 @@ def write_replay(pid, payload):
     return p
 
 
-ALL_GENERATORS = ["gen_state", "gen_consts", "gen_convert"]
+ALL_GENERATORS = ["gen_state", "gen_consts", "gen_convert", "gen_lalr"]
 
 
 def main():
